@@ -195,3 +195,82 @@ pub fn check_c01(cx: &mut Ctx<'_, '_>) {
     }
     cx.t.count("c01.pipeline_verdicts", results.len() as u64);
 }
+
+
+/// C01, facade part: `Cucumber::custom(..).run_and_exit()` panics iff the
+/// statement says the run failed. The case is executed a second time without
+/// gates through the facade (eager parser, `block_on`).
+pub fn check_run_and_exit(case: &crate::spec::CaseSpec, t: &mut crate::report::Tally, idx: u64) {
+    use cucumber::{Cucumber, cli as ccli, runner};
+    use crate::{exec, recw::Collect, spec, world};
+    let mut plain = case.clone();
+    for v in plain.plan.values_mut() {
+        for b in v.iter_mut() {
+            b.gates_before = 0;
+            b.gates_after = 0;
+        }
+    }
+    plain.world_gates = 0;
+    for p in plain.pend.iter_mut() {
+        p.clear();
+    }
+    world::reset(plain.plan.clone(), plain.world_plan.clone(), 0);
+    exec::install_sentinel_hook();
+    let (parser, _shared) = exec::parser_for(&plain);
+    let sink = Collect::default();
+    let fos = idx % 2 == 0;
+    let opts = ccli::Opts::<ccli::Empty, runner::basic::Cli, ccli::Compose<writer::basic::Cli, ccli::Empty>, ccli::Empty> {
+        runner: exec::runner_cli(&plain.cfg),
+        writer: ccli::Compose { left: basic_cli(), right: ccli::Empty },
+        ..Default::default()
+    };
+    macro_rules! go {
+        ($r:expr) => {{
+            let w = writer::Tee::new(writer::Basic::new::<TW>(SharedBuf::default(), Coloring::Never, 0).summarized(), sink.clone());
+            let cuc = Cucumber::<TW, exec::FacadeParser, (), _, _, ccli::Empty>::custom(exec::FacadeParser(parser), $r, w).with_cli(opts);
+            exec::IN_RUN.store(true, std::sync::atomic::Ordering::SeqCst);
+            let r = if fos {
+                std::panic::catch_unwind(std::panic::AssertUnwindSafe(|| block_on(cuc.fail_on_skipped().run_and_exit(()))))
+            } else {
+                std::panic::catch_unwind(std::panic::AssertUnwindSafe(|| block_on(cuc.run_and_exit(()))))
+            };
+            exec::IN_RUN.store(false, std::sync::atomic::Ordering::SeqCst);
+            r
+        }};
+    }
+    let base = exec::base_runner(&plain.cfg);
+    let res = match (plain.cfg.before_hook, plain.cfg.after_hook) {
+        (true, true) => go!(base.before(world::before_hook).after(world::after_hook)),
+        (true, false) => go!(base.before(world::before_hook)),
+        (false, true) => go!(base.after(world::after_hook)),
+        (false, false) => go!(base),
+    };
+    // the runner replaced the process panic hook during the run; reinstall ours
+    exec::install_sentinel_hook();
+    let items = sink.0.borrow().clone();
+    // under fail_on_skipped the collected events are already transformed; the
+    // statement's verdict over them needs no further rule for skipped steps
+    let out = exec::RunOutput::from_items(items);
+    let an = Analysis::new(&plain, &out);
+    // a not-found failure (skipped step turned into a failure by fail_on_skipped) is final
+    // whatever its retry counter says: the runner never retries it
+    let not_found = out.evs.iter().any(|r| matches!(r.is_sc(), Some(ScEv::Step { ev: StepEv::Failed { err: crate::evrec::StepErr::NotFound, .. }, .. })));
+    let exp = expected_verdict(&an, false) || not_found;
+    let panicked = res.is_err();
+    let msg = res.err().map(|p| format!("{:?}", crate::evrec::payload_of(&std::sync::Arc::from(p))));
+    t.count("c01.run_and_exit_runs", 1);
+    if out.evs.last().map(|r| &r.ev) != Some(&Ev::Finished) {
+        t.count("c01.run_and_exit_incomplete", 1);
+        return;
+    }
+    if panicked != exp {
+        t.violation(
+            "C01",
+            "verdict:run_and_exit",
+            format!("run_and_exit() {} (message {msg:?}) but the statement gives failed={exp} (fail_on_skipped={fos})", if panicked { "panicked" } else { "returned normally" }),
+            idx,
+            json!({"case": plain.describe(), "stream": crate::evrec::render(&out.evs)}),
+        );
+    }
+    let _ = spec::dur(None);
+}
